@@ -28,7 +28,12 @@ Walk(steps, k, prev, acc) ==
                       THEN {<<k, 0, "store-shape">>} ELSE {}
              same == IF st.res = "same" THEN {<<k, st.r, "returned-receiver">>} ELSE {}
              moved == {<<k, v, "changed">> : v \in {x \in 1..Len(prev) : x <= Len(st.obs) /\ st.obs[x] # prev[x]}}
-         IN Walk(steps, k + 1, st.obs, acc \cup shape \cup same \cup moved)
+             \* C15: a duplication step never raises and its result is observed exactly like its original
+             dupbad == IF st.l \notin {"copy", "deepcopy", "pickle"} \/ st.res = "skip" THEN {}
+                       ELSE IF st.res # "new" THEN {<<k, st.r, "dup-raises">>}
+                       ELSE IF Len(st.obs) = Len(prev) + 1 /\ st.obs[Len(st.obs)] # prev[st.r] THEN {<<k, st.r, "dup-differs">>}
+                       ELSE {}
+         IN Walk(steps, k + 1, st.obs, acc \cup shape \cup same \cup moved \cup dupbad)
 
 Verdict(e) == [tid |-> e.tid, bad |-> Walk(e.steps, 1, <<e.obs0>>, {})]
 Next == /\ i <= Len(Events)
